@@ -1557,8 +1557,14 @@ func (B *Bounds) inlineAff(caller *boundsFn, callee *ssa.Function, args []ssa.Va
 				if inner == nil || !B.writeFree(inner) || !isIntType(v.Type()) {
 					return aff{}, false
 				}
-				// arguments of the inner call must be callee params/consts
+				// arguments of the inner call: callee params/consts are
+				// translated to the caller's values; an argument that is itself
+				// a write-free call of params is translated to its affine form,
+				// which can only name a symbolic result atom (no value exists
+				// for it in the caller)
 				var cargs []ssa.Value
+				var names []string
+				allValues := true
 				for _, a := range v.Call.Args {
 					switch av := a.(type) {
 					case *ssa.Parameter:
@@ -1572,11 +1578,59 @@ func (B *Bounds) inlineAff(caller *boundsFn, callee *ssa.Function, args []ssa.Va
 							return aff{}, false
 						}
 						cargs = append(cargs, args[idx])
+						names = append(names, sx(caller.canon(args[idx])))
 					case *ssa.Const:
 						cargs = append(cargs, av)
+						names = append(names, sx(av))
+					case *ssa.Call:
+						ac := av.Call.StaticCallee()
+						if ac == nil || av.Call.IsInvoke() || !B.writeFree(ac) {
+							return aff{}, false
+						}
+						var aargs []ssa.Value
+						for _, aa := range av.Call.Args {
+							switch x := aa.(type) {
+							case *ssa.Parameter:
+								idx := -1
+								for i, q := range callee.Params {
+									if q == x {
+										idx = i
+									}
+								}
+								if idx < 0 || idx >= len(args) {
+									return aff{}, false
+								}
+								aargs = append(aargs, args[idx])
+							case *ssa.Const:
+								aargs = append(aargs, x)
+							default:
+								return aff{}, false
+							}
+						}
+						var aa aff
+						if isIntType(av.Type()) {
+							var ok bool
+							if aa, ok = B.inlineAff(caller, ac, aargs, depth+1); !ok {
+								return aff{}, false
+							}
+						} else {
+							aa = B.boolSym(caller, ac, aargs)
+						}
+						allValues = false
+						names = append(names, caller.affString(aa))
 					default:
 						return aff{}, false
 					}
+				}
+				if !allValues {
+					r := B.returnRange(inner)
+					if r == nil {
+						return aff{}, false
+					}
+					k := inner.String() + "(" + strings.Join(names, ",") + ")"
+					B.symRng[k] = *r
+					out = out.add(affAtom(symKey{k}), c)
+					continue
 				}
 				ia, ok := B.inlineAff(caller, inner, cargs, depth+1)
 				if !ok {
